@@ -212,7 +212,20 @@ pub fn gen_case(t: &mut Tape) -> Case {
                 classes.push("fn:generic_type_parameter");
             }
             let nd = if f.deps == 2 { ", no_deps" } else { "" };
-            src.push_str(&format!("/*GEN*/ #[{mac}(pub TheTrait, mock_api = TheMock{nd}{exp})]\n{}\n", f.render("")));
+            // the fn may come out of a `macro_rules!` expansion with two same-spelled parameters (one written in the macro, one
+            // passed in): the un-mock expression and the delegation must forward each identifier, not a spelling
+            let plain: Vec<usize> = f.params.iter().enumerate().filter(|(_, p)| p.pk == PK::Plain).map(|(i, _)| i).collect();
+            if plain.len() >= 2 && t.chance(1, 6) {
+                let (i, j) = (plain[0], plain[plain.len() - 1]);
+                let passed = f.params[i].name.clone();
+                let mut fm = f.clone();
+                fm.params[j].name = "$p".to_string();
+                src.push_str(&format!("macro_rules! __mk_the_fn {{ ($p:ident) => {{\n/*GEN*/ #[{mac}(pub TheTrait, mock_api = TheMock{nd}{exp})]\n{}\n}} }}\n__mk_the_fn!({passed});\n", fm.render("")));
+                classes.push("fn_from_macro_rules_with_same_spelled_parameters");
+                nontrivial = true;
+            } else {
+                src.push_str(&format!("/*GEN*/ #[{mac}(pub TheTrait, mock_api = TheMock{nd}{exp})]\n{}\n", f.render("")));
+            }
             checks(&f, if f.generic { "TheMock.with_types::<i64>()" } else { "TheMock" }, "", f.deps != 3, &mut run, &mut classes, &mut nontrivial);
             classes.push(["fn:generic_deps", "fn:impl_deps", "fn:no_deps", "fn:concrete_deps"][f.deps as usize]);
             if f.deps == 2 && f.params.len() >= 2 {
